@@ -826,6 +826,24 @@ def check_c03(pid, tier, seed, replay=None):
             s = Scenario(f'gplie-{f}-{kind}-{page}-{val}-{mode}', [key], ls, 'lying-page-fields', budget=30, tags=('damaged',))
             s.pre = [f'dmg {fid(key)} {kind} {page} {val}'] + ([f'dmg {fid(key)} drop {rng.randrange(3, 12)} 0'] if k % 2 else [])
             scs.append(s)
+    # the end of a link claims more samples than the link holds (its last granule position lies): the open believes it, and a seek into the
+    # claimed but absent tail discards packets up to and across the link boundary (found missing by a seeded change: the decoder of the
+    # next link was not brought up there)
+    k = 0
+    for f in ('B', 'I', 'X', 'D', 'ZC', 'Y'):
+        for l in range(nlinks(f)):
+            for extra in (1, 700, 20000):
+                k += 1
+                if quick and (k + seed) % 3 == 0: continue
+                key = f'ZL{k}'; C.FILES[key] = C.FILES[f]
+                ls = [f'open 0 {fid(key)} seek', 'q 0']
+                for d in (1, extra // 2, extra - 1, extra):
+                    for op in ('ps', 'psp', 'psl', 'pspl'): ls += [f'{op} 0 p:{l}:9999:{d}', 'tell 0', 'rf 0 64', 'rf 0 4096']
+                ls += [f'ts 0 {l} 100000 0', 'rf 0 64', 'hr 0 1', f'ps 0 p:{l}:9999:{extra // 2}', 'rf 0 64', 'rfn 0 100000 -1', 'clear 0', 'clear 0']
+                how = ('endgp', 'endpage')[k % 2]        # the last page itself lies / an empty page behind it does (no packet ever carries the claimed position)
+                s = Scenario(f'endlie-{f}-{l}-{extra}-{how}', [key], ls, 'lying-link-end', budget=30, tags=('damaged',))
+                s.pre = [f'dmg {fid(key)} {how} {l} {extra}']
+                scs.append(s)
     # undamaged chains (odd link lengths, 0/1-sample links, extreme serial numbers) under the same random call mix with half rate switched on early:
     # termination and memory safety must not depend on the stream being damaged
     for i in range(48 if quick else 600):
